@@ -218,7 +218,17 @@ def run(rep: vk.Report):
                 for nm_, (f_, takes_dict) in fns.items():
                     if takes_dict or nm_ == "evaluate":
                         continue
-                    bad_ = common.alias_probe(lambda a_, f_=f_: np.float64(f_(a_)), xa, xb, lambda a_: np.float64(eb), rtol=1e-9)
+                    # the reference is the SAME callable on fresh copies of the two points (what it answers without any reuse); points
+                    # where that is not the tree's value (outside the domain: Python's 0.0 ** -1 raises, NumPy's gives inf) are left to
+                    # the main stream, which lets the model adjudicate them
+                    with np.errstate(all="ignore"):
+                        fresh_a, fresh_b = call(f_, xa.copy()), call(f_, xb.copy())
+                    if fresh_a is None or fresh_b is None or abs(fresh_b - eb) > tol_:
+                        continue
+                    try:
+                        bad_ = common.alias_probe(lambda a_, f_=f_: np.float64(f_(a_)), xa, xb, lambda a_, fb_=fresh_b: np.float64(fb_), rtol=1e-12)
+                    except (ZeroDivisionError, OverflowError, FloatingPointError, TypeError, ValueError):
+                        continue
                     if bad_:
                         rep.violation({"kind": "history", "obligation": "a compiled callable reads the array it is given at every call",
                                        "witness": dict(bad_, expr=te[:1500], path=nm_, V=names_)}, concrete=True)
@@ -229,7 +239,10 @@ def run(rep: vk.Report):
                     f_shift = C_.compile_expression(e, [front] + list(V))
                     with np.errstate(all="ignore"):
                         vs_ = call(f_shift, np.concatenate([[7.25], xb]))
-                    if vs_ is None or abs(vs_ - eb) > tol_:
+                        cb_ = call(fns["compiled"][0], xb.copy())
+                    if cb_ is None or abs(cb_ - eb) > tol_:
+                        pass              # outside the domain for the compiled path at this point: nothing to compare (main stream adjudicates)
+                    elif vs_ is None or abs(vs_ - eb) > tol_:
                         rep.violation({"kind": "history", "obligation": "the same expression compiled for a second layout (one unused variable in front) returns its value",
                                        "witness": {"expr": te[:1500], "first_layout": names_, "second_layout": [front.name] + names_, "point": pb,
                                                    "compiled_for_second_layout": vs_, "evaluate": eb}}, concrete=True)
